@@ -224,7 +224,7 @@ def step (j : J) (ev : Ev) (outs : List Out) : J :=
               let j := if res == some (Err.estate, none) then j
                 else if res == some (Err.econnreset, none) then j.fail12 "ECONNRESET reported although no request lost its connection"
                 else j
-              ((if res == some (Err.estate, none) || res == some (Err.econnreset, none) then j
+              ((if res == some (Err.estate, none) then j
                 else j.fail04 "receive without an outstanding request did not fail with ESTATE"), [])
           | some _ =>
             match mode with
